@@ -372,6 +372,27 @@ def tlc_replays(module, cfg, num, depth, seed_arg=1, timeout=600, tag="REPLAY"):
     return out, r
 
 
+def tlc_behaviours(module, cfg, workers=4, timeout=900, tag="REPLAY"):
+    """Exhaustive TLC run of a Replay_* module whose invariant prints one JSON payload per completed behaviour."""
+    r = tlc(module, cfg, workers=workers, timeout=timeout)
+    if not r.ok():
+        sys.stdout.write(r.raw[-3000:])
+        raise ToolError("TLC %s/%s: violated=%s error=%s" % (module, cfg, r.violated, r.error))
+    out = []
+    for line in r.raw.splitlines():
+        if line.startswith('<<"%s", "' % tag):
+            body = line[len('<<"%s", ' % tag):]
+            body = body[:body.rindex(">>")]
+            try:
+                out.append(json.loads(json.loads(body)))
+            except ValueError:
+                pass
+    if not out:
+        raise ToolError("no %s behaviours produced by %s" % (tag, module))
+    log("TLC %s/%s: %d behaviours (exhaustive, %d distinct states), %.1fs" % (module, cfg, len(out), r.distinct, r.wall))
+    return out, r
+
+
 def apalache(module, init, inv, length, timeout=900, cwd=None):
     """One Apalache query; returns (ok, seconds). Output directories go under work/."""
     cwd = cwd or SPEC
